@@ -5,11 +5,15 @@ import (
 	"encoding/json"
 	"fmt"
 	"net"
+	"os"
+	"path/filepath"
 	"reflect"
 	"sort"
 	"strings"
+	"time"
 
 	"github.com/facebookincubator/tacquito/cmds/server/config"
+	fswatch "github.com/facebookincubator/tacquito/cmds/server/loader/fsnotify"
 	jsonloader "github.com/facebookincubator/tacquito/cmds/server/loader/json"
 	yamlloader "github.com/facebookincubator/tacquito/cmds/server/loader/yaml"
 	"gopkg.in/yaml.v3"
@@ -17,6 +21,7 @@ import (
 	"verif/h/mon"
 	"verif/h/refsrv"
 	"verif/h/rfc8907"
+	"verif/h/tap"
 )
 
 // C16 — reloading a configuration file is equivalent to starting with it
@@ -31,7 +36,7 @@ func init() {
 		Rule: "documents come from a configuration grammar rendered to YAML and JSON and are then edited: optional top-level keys dropped, user/secret lists shrunk and reordered, per-user commands/services/groups/authenticator/accounter removed, option maps changed; interleaved with unparsable documents, type errors and documents failing the minimum-content check; histories of length 2-6. " +
 			"A class is (format, sequence of edit kinds of the history's last 3 steps, outcome); distinct_nontrivial counts classes",
 		Assumptions: []string{"semantic equality: nil and empty collections are the same value",
-			"the fsnotify watcher itself (inotify timing) is not driven; it calls Load on the same loader object, which is what is exercised here through Unmarshal"},
+			"thorough tier drives the real fsnotify watcher on a temporary file for one short history per batch; a change that produces no publication within 4 s is counted as skipped (inotify timing), never a verdict"},
 		MinClasses: func(tier string) int { return 60 },
 	})
 }
@@ -313,7 +318,10 @@ func c16Edit(r *gen.R, prev config.ServerConfig, edit string) (cfg *config.Serve
 func runC16(b *mon.B) {
 	r := gen.New(uint64(b.Seed), 0xC16, uint64(b.Index))
 	caseNo := 0
-	nHist := b.N(320, 19000)
+	if b.Thorough() && b.Only < 0 {
+		c16Watcher(b, r.Fork(99))
+	}
+	nHist := b.N(160, 19000)
 	for hi := 0; hi < nHist; hi++ {
 		caseNo++
 		format := []string{"yaml", "json"}[hi%2]
@@ -432,6 +440,69 @@ func runC16(b *mon.B) {
 		// ---- end to end (lookups + AAA outcomes) on a sample of histories
 		if hi%8 == 0 && !bad {
 			c16EndToEnd(b, r, caseNo, format, docs, edits)
+		}
+	}
+}
+
+// c16Watcher drives the real fsnotify watcher on a temporary file (thorough tier,
+// one history per batch): the watcher calls Load on the same loader object for every
+// change. inotify timing is outside our control: a change that produces no
+// publication within 4 s is counted as "skipped", never a verdict.
+func c16Watcher(b *mon.B, r *gen.R) {
+	dir, err := os.MkdirTemp("", "c16watch")
+	if err != nil {
+		return
+	}
+	defer os.RemoveAll(dir)
+	path := filepath.Join(dir, "tacquito.yaml")
+	base := c16Base(r)
+	doc0, _ := yaml.Marshal(base)
+	if os.WriteFile(path, doc0, 0644) != nil {
+		return
+	}
+	ctx, cancel := context.WithCancel(context.Background())
+	defer cancel()
+	lo := yamlloader.New()
+	w := fswatch.New(ctx, lo, tap.NewLogger(false))
+	if err := w.Load(path); err != nil {
+		b.Inconclusive("fsnotify watcher could not be started: %v", err)
+		return
+	}
+	<-w.Config()
+	cur := base
+	for step := 0; step < 5; step++ {
+		e := c16Edits[r.Intn(len(c16Edits))]
+		cfg, raw := c16Edit(r, cur, e)
+		doc := raw["yaml"]
+		time.Sleep(150 * time.Millisecond)
+		if os.WriteFile(path, doc, 0644) != nil {
+			return
+		}
+		fresh := yamlloader.New()
+		ferr := fresh.Unmarshal(doc)
+		b.Eval(1)
+		b.Class("watcher/%s/fresh-accepts=%v", e, ferr == nil)
+		select {
+		case got := <-w.Config():
+			if ferr != nil {
+				b.Violate(-1, "C16/watcher/published-a-document-a-fresh-loader-rejects", fmt.Sprintf("file watcher: after edit %s a configuration was published although a fresh loader rejects the file: %v", e, ferr), nil)
+				return
+			}
+			want := <-fresh.Config()
+			if canon(got) != canon(want) {
+				b.Violate(-1, "C16/watcher/reload-differs-from-fresh/"+diffTop(got, want), fmt.Sprintf("file watcher: configuration published after edit %s differs from a fresh load of the same file (%s)", e, diffTop(got, want)), nil)
+				return
+			}
+			b.Count("watcher_reloads_equal_to_fresh", 1)
+			if cfg != nil {
+				cur = *cfg
+			}
+		case <-time.After(4 * time.Second):
+			if ferr == nil {
+				b.Count("watcher_changes_skipped_no_event", 1)
+			} else {
+				b.Count("watcher_invalid_documents_not_published", 1)
+			}
 		}
 	}
 }
